@@ -23,7 +23,22 @@ library's internal calls as well)
   wall-data           (W) Hyperplane built from a normal: stored normal line,
                       ideal basis lightlike / orthogonal / independent.
   roundtrip           (W) wall -> reflection -> wall and reflection -> wall ->
-                      reflection return the same object.
+                      reflection return the same object; the reflection equals
+                      x -> x - 2<x,v>/<v,v> v; Coxeter generators' walls meet at
+                      the Coxeter angles.
+
+Mechanism keys.  Fixed-point failures are keyed by symptom/type/dimension class,
+except for the one mechanism of DESIGN section 6 F16 -- numpy.linalg.eig returns
+an arbitrary (even non-real) basis of a repeated eigenvalue-1 eigenspace on which
+the form is indefinite or degenerate -- which gets one key per (type, dimension
+class) whatever the symptom:
+  C15/elliptic-fixed-point/dim>=3/repeated-eigenvalue-1      elliptic, n >= 3, dim ker(M-1) >= 2
+  C15/elliptic-fixed-point/dim2/reflection/repeated-eigenvalue-1   elliptic, n = 2 (reflections only)
+  C15/parabolic-fixed-point/dim>=3/repeated-eigenvalue-1     parabolic, n >= 3, dim ker(M-1) >= 2
+The multiplicity is decided by the reference (SVD null space of M - 1), never by
+the library.  Elliptic and parabolic isometries of every dimension whose
+eigenvalue 1 is simple (classes block-simple-1, simple-eigenvalue-1), dimension 2,
+and all loxodromics stay fully judged under symptom keys.
 """
 import math
 import weakref
@@ -41,8 +56,10 @@ RULE = ("walls: (dimension 2..5, route {normal vector, full data, ideal points, 
         "Coxeter generator}, composite shape, conditioning class of the normal); "
         "fixed points: (dimension, isometry type, construction class {standard "
         "rotation / general elliptic block / loxodromic with and without twist / "
-        "parabolic own formula / parabolic sl2 embedded}, conjugator route, composite "
-        "shape, option); non-trivial = the wall does not pass through the origin "
+        "parabolic own formula / parabolic sl2 embedded / with simple eigenvalue 1}, "
+        "conjugator route, composite shape, option); non-reflections: (dimension, class "
+        "of 11 incl. the eigenvalue pattern (-1,1,..,1) with a Jordan block, hidden in a "
+        "composite or not); non-trivial = the wall does not pass through the origin "
         "along a coordinate axis resp. the conjugator is not the identity; distinct "
         "= distinct signatures of that kind")
 ASSUMPTIONS = [
@@ -80,6 +97,20 @@ F16_KEY = "C15/elliptic-fixed-point/dim>=3/repeated-eigenvalue-1"
 # same mechanism in dimension 2: only reflections (orientation-reversing elliptic
 # isometries, outside the quantifier's families) have a repeated eigenvalue 1 there
 F16_DIM2_KEY = "C15/elliptic-fixed-point/dim2/reflection/repeated-eigenvalue-1"
+
+# ... and for parabolic isometries of H^n, n >= 3, whose eigenvalue 1 has further
+# (spacelike) eigenvectors besides the Jordan block: eig returns a complex basis of
+# the cluster and in ~0.05% of the conjugates a non-real combination sorts first
+PARABOLIC_KEY = "C15/parabolic-fixed-point/dim>=3/repeated-eigenvalue-1"
+
+
+def fixed_point_key(what, typ, n, mult1):
+    if typ == "elliptic" and mult1 >= 2:
+        return F16_KEY if n >= 3 else F16_DIM2_KEY
+    if typ == "parabolic" and n >= 3 and mult1 >= 2:
+        return PARABOLIC_KEY
+    return "fixed_point/%s/%s/dim%s" % (what, typ, "2" if n == 2 else ">=3")
+
 
 TOL = 1e-7            # bulk relative tolerance (pinned-tree residuals <= 1e-12)
 IDEAL_TOL = 1e-7      # |<p,p>| / |p|^2 of a reported ideal point
@@ -297,7 +328,9 @@ def make_hooks(run, hyp, GeometryError):
                       "%s: a vector of the returned ideal basis is not orthogonal to "
                       "the reflection's normal" % what, c)
             sv = np.linalg.svd(bn, compute_uv=False)
-            mon.require(sv[-1] / sv[0] > 1e-6 * q, prefix + "/ideal-basis-degenerate",
+            # (rank deficiency at working precision only: how well conditioned the
+            # returned basis is, is not promised)
+            mon.require(sv[-1] / sv[0] > 1e-10, prefix + "/ideal-basis-degenerate",
                         "%s: returned ideal basis is linearly dependent (sigma ratio %.2e)"
                         % (what, sv[-1] / sv[0]), c)
 
@@ -403,9 +436,7 @@ def make_hooks(run, hyp, GeometryError):
         # the mechanism of F16 (eig returns an arbitrary basis of a repeated
         # eigenvalue-1 eigenspace on which the form is indefinite) gets one key per
         # dimension class, whatever the symptom; everything else is keyed by symptom
-        if typ == "elliptic" and mult1 >= 2:
-            return F16_KEY if n >= 3 else F16_DIM2_KEY
-        return "fixed_point/%s/%s/dim%s" % (what, typ, "2" if n == 2 else ">=3")
+        return fixed_point_key(what, typ, n, mult1)
 
     def scale_tol(typ, M, rho):
         s = max(1.0, ri.maxabs(M))
@@ -660,32 +691,46 @@ WALL_CLASSES = ["bulk", "lightlike-kernel", "through-origin", "far", "axis", "bu
 
 
 def check_wall_data(run, H, v, sig, case):
-    """W: Hyperplane built from normal(s) v."""
+    """W: Hyperplane built from normal(s) v.  Returns False when the wall is
+    broken (the rest of the case would only show consequences)."""
     mon = run.monitor("wall-data")
+    hostile = "lightlike-kernel" in sig
+    good = True
+
+    def key(what):
+        # one key for the whole mechanism in the hostile class, whatever the symptom
+        return "wall-data/broken-wall/lightlike-kernel" if hostile else "wall-data/" + what
     data = np.asarray(H.proj_data, dtype=float)
     n1 = v.shape[-1]
     vu = _units(v, 1)
     Hu = _units(data, 2)
     if Hu.shape[1:] != (n1, n1) or len(Hu) != len(vu):
-        return mon.fail("wall-data/bad-shape", "Hyperplane(%r normals) has data shape %r"
-                        % (v.shape, data.shape), case)
+        mon.fail(key("bad-shape"), "Hyperplane(%r normals) has data shape %r"
+                 % (v.shape, data.shape), case)
+        return False
     for k in range(len(vu)):
         q = float(ri.qrel(vu[k]))
         tol = TOL / q
-        mon.judge(float(ri.proj_dev(Hu[k][0], vu[k])), tol, "wall-data/normal-line-differs",
-                  "Hyperplane(v): stored normal is not on the line of v (%s)" % (sig,), case)
+        good &= mon.judge(float(ri.proj_dev(Hu[k][0], vu[k])), tol,
+                          key("normal-line-differs"),
+                          "Hyperplane(v): stored normal is not on the line of v (%s)" % (sig,), case)
         ideal = Hu[k][1:]
-        mon.judge(float(np.max(np.abs(ri.qrel(ideal)))), IDEAL_TOL / q,
-                  "wall-data/ideal-basis-not-lightlike",
-                  "Hyperplane(v): ideal basis vector not lightlike (%s)" % (sig,), case)
+        if not np.all(np.isfinite(ideal)) or np.any(np.linalg.norm(ideal, axis=-1) == 0):
+            good = mon.fail(key("ideal-basis-non-finite"),
+                            "Hyperplane(v): non-finite or zero ideal basis vector (%s)" % (sig,), case)
+            continue
+        good &= mon.judge(float(np.max(np.abs(ri.qrel(ideal)))), IDEAL_TOL / q,
+                          key("ideal-basis-not-lightlike"),
+                          "Hyperplane(v): ideal basis vector not lightlike (%s)" % (sig,), case)
         bn = ideal / np.linalg.norm(ideal, axis=-1, keepdims=True)
         vn = vu[k] / np.linalg.norm(vu[k])
-        mon.judge(float(np.max(np.abs(rh.mink(bn, vn[None, :])))), tol,
-                  "wall-data/ideal-basis-not-orthogonal",
-                  "Hyperplane(v): ideal basis vector not orthogonal to v (%s)" % (sig,), case)
+        good &= mon.judge(float(np.max(np.abs(rh.mink(bn, vn[None, :])))), tol,
+                          key("ideal-basis-not-orthogonal"),
+                          "Hyperplane(v): ideal basis vector not orthogonal to v (%s)" % (sig,), case)
         sv = np.linalg.svd(bn, compute_uv=False)
-        mon.require(sv[-1] / sv[0] > 1e-4 * q, "wall-data/ideal-basis-degenerate",
-                    "Hyperplane(v): ideal basis linearly dependent (%s)" % (sig,), case)
+        good &= mon.require(sv[-1] / sv[0] > 1e-10, key("ideal-basis-degenerate"),
+                            "Hyperplane(v): ideal basis linearly dependent (%s)" % (sig,), case)
+    return bool(good)
 
 
 def wl_walls(run, rng, idx):
@@ -702,8 +747,10 @@ def wl_walls(run, rng, idx):
             "normals": v}
     run.current_case = case
     sig = ("walls", n, shape, cls, route)
+    run.note_class(*sig)
     H = Hyperplane(arg)
-    check_wall_data(run, H, v, sig, case)
+    if not check_wall_data(run, H, v, sig, case):
+        return
     if route == "full-data":
         H = Hyperplane(np.array(H.proj_data, dtype=float))
     elif route == "object":
@@ -935,6 +982,21 @@ def wl_non_reflections(run, rng, idx):
     if cls == "parabolic-times-reflection" and n < 3:
         cls = "glide-reflection"
     composite = (idx // (3 * len(NONREF))) % 3
+    if cls == "parabolic-times-reflection":
+        # eigenvalues (-1, 1, ..., 1) although not an involution; the rounded spectrum
+        # falls inside a 1e-8 window in a few percent of the conjugates only
+        n = 4 if idx % 2 else n
+        for rep in range(11):
+            A = non_reflection(rng, n, cls)
+            Cc = rh.rand_isometry(rng, n, tmax=1.0)
+            T = Isometry(Cc @ A @ ri.minv(Cc), column_vectors=True)
+            expect(T, **{"class": cls})
+            run.current_case = {"dimension": n, "class": cls, "instance": rep,
+                                "matrix_columns": Cc @ A @ ri.minv(Cc)}
+            try:
+                Hyperplane.from_reflection(T)                # P decides
+            except Exception:
+                pass
     A = non_reflection(rng, n, cls)
     Cc = rh.rand_isometry(rng, n, tmax=1.0)
     M = Cc @ A @ ri.minv(Cc)
@@ -1116,9 +1178,21 @@ def wl_loxodromic(run, rng, idx):
 def wl_parabolic(run, rng, idx):
     from geometry_tools.hyperbolic import Isometry, sl2_iso
     n = [2, 3, 4][idx % 3]
-    cls = ["sl2-upper", "sl2-lower", "own-formula", "sl2-upper-negative", "own-formula"][(idx // 3) % 5]
+    cls = ["sl2-upper", "sl2-lower", "own-formula", "sl2-upper-negative", "own-formula",
+           "simple-eigenvalue-1"][(idx // 3) % 6]
     t = float(rng.choice([-1.0, 1.0]) * np.exp(rng.uniform(math.log(0.2), math.log(3.0))))
-    if cls.startswith("sl2"):
+    if cls == "simple-eigenvalue-1" and n == 2:
+        cls = "own-formula"
+    if cls == "simple-eigenvalue-1":
+        # no further eigenvector for the eigenvalue 1: orientation-reversing parabolic
+        # (dimension 3) / parabolic times a rotation of the complement (dimension 4)
+        A = ri.parabolic(n, t, axis=2)
+        if n == 3:
+            A[:, 3] *= -1.0
+        else:
+            A = A @ ri.rotation(n, float(rng.uniform(0.3, 2.8)), 3, 4)
+        S = Isometry(A, column_vectors=True)
+    elif cls.startswith("sl2"):
         m2 = np.array([[1.0, t], [0.0, 1.0]]) if cls != "sl2-lower" else np.array([[1.0, 0.0], [t, 1.0]])
         if cls == "sl2-upper-negative":
             m2 = -m2                                       # same Moebius map
@@ -1149,8 +1223,8 @@ def wl_parabolic(run, rng, idx):
             continue
         s = max(1.0, ri.maxabs(Mu[k]))
         mon.judge(float(ri.proj_dev(Pu[k], l)), 50.0 * (ri.EPS * s) ** (1.0 / 3.0) * s,
-                  "fixed_point/differs-from-reference-direction/parabolic/dim%s"
-                  % ("2" if n == 2 else ">=3"),
+                  fixed_point_key("differs-from-reference-direction", "parabolic", n,
+                                  ri.classify(Mu[k])["mult1"] or 0),
                   "fixed point of a parabolic isometry differs from the row space of (M-I)^2",
                   case)
     if idx < 1:
@@ -1186,14 +1260,31 @@ def wl_options(run, rng, idx):
             pass
 
 
+def wl_repo_tests(run, rng, idx):
+    """the repository's own hyperbolic tests (they call fixed_point /
+    fixed_point_pair) with the postconditions attached; types come from the
+    reference classifier here."""
+    from .. import pytest_run
+    names = ("fixed-point", "fixed-point-pair", "reflection-across")
+    before = {k: run.monitor(k).evals for k in names}
+    run.current_case = {"repo_tests": "testing/test_hyperbolic.py"}
+    out = pytest_run.run_repo_tests(run, ["test_hyperbolic.py"])
+    run.extra["repo_tests"] = dict(
+        {"ran": len(out), "passed": sum(1 for v in out.values() if v == "passed")},
+        **{"evaluations:" + k: run.monitor(k).evals - before[k] for k in names})
+    if out:
+        run.note_class("repo-tests", "test_hyperbolic.py")
+
+
 WORKLOADS = [
-    Workload("walls", wl_walls, quick=150, thorough=4000),
-    Workload("ideal-walls", wl_ideal_walls, quick=45, thorough=1200),
-    Workload("coxeter-reflections", wl_coxeter, quick=48, thorough=480),
-    Workload("non-reflections", wl_non_reflections, quick=99, thorough=1500),
-    Workload("elliptic", wl_elliptic, quick=216, thorough=6000),
-    Workload("dim2-reflection-fixed-point", wl_dim2_reflection_fixed_point, quick=40, thorough=800),
-    Workload("loxodromic", wl_loxodromic, quick=144, thorough=4000),
-    Workload("parabolic", wl_parabolic, quick=90, thorough=2400),
-    Workload("options", wl_options, quick=24, thorough=240),
+    Workload("walls", wl_walls, quick=450, thorough=20000),
+    Workload("ideal-walls", wl_ideal_walls, quick=135, thorough=6000),
+    Workload("coxeter-reflections", wl_coxeter, quick=96, thorough=2880),
+    Workload("non-reflections", wl_non_reflections, quick=198, thorough=9000),
+    Workload("elliptic", wl_elliptic, quick=648, thorough=30000),
+    Workload("dim2-reflection-fixed-point", wl_dim2_reflection_fixed_point, quick=80, thorough=4000),
+    Workload("loxodromic", wl_loxodromic, quick=432, thorough=20000),
+    Workload("parabolic", wl_parabolic, quick=270, thorough=12000),
+    Workload("options", wl_options, quick=72, thorough=2400),
+    Workload("repo-tests-under-monitors", wl_repo_tests, quick=1, thorough=1),
 ]
